@@ -15,7 +15,9 @@ from props import c06 as A
 PID = "C16"
 MODULES = ["FlVerif.Props.C16"]
 NAMESPACE = "C16"
-TIE_A = ["code:fuzzylite.rule.Rule.parse", "code:fuzzylite.rule.Consequent.load", "code:fuzzylite.rule.Antecedent.load"]
+TIE_A = ["code:fuzzylite.rule.Rule.parse", "code:fuzzylite.rule.Consequent.load", "code:fuzzylite.rule.Antecedent.load"] + [
+    f"code:fuzzylite.importer.FllImporter.{m}" for m in ("extract_key_value", "boolean", "range", "tnorm", "snorm",
+                                                         "input_variable", "output_variable", "rule_block")]
 RULE = ("valid rules (antecedents to depth 3 with hedges / any / parentheses, 1-3 conclusions with hedges, optional weight) "
         "over generated engines, mutated by token deletion, duplication, substitution (keywords, valid and unknown names, "
         "numbers, parentheses), truncation at every token boundary, reordering, plus one-error injections of every listed "
